@@ -83,3 +83,7 @@ pub fn adapt_key_pred<P, V, F: FnMut(&P) -> bool>(f: F) -> (g: impl FnMut(&P, &V
     let mut f = f;
     move |q: &P, _v: &V| f(q)
 }
+
+// vacuity probes (DESIGN 3.6): body of every probe function; returns an arbitrary value, no specification
+#[verifier::external_body]
+pub fn probe_any<T>() -> T { unimplemented!() }
